@@ -55,7 +55,7 @@ def judge(tree, res):
     for key, lines in res["fmt"].items():
         a, sc, sh = (ch == "1" for ch in key)
         for l in lines:
-            if not l.endswith("\n") or l.count("\n") != 1:
+            if not l.endswith("\n") or l.count("\n") != 1 or "\r" in l:
                 return "format(%s) element is not exactly one newline-terminated line: %r" % (key, l)
         for msg in res.get("error_messages", []):
             if msg not in "".join(lines):
